@@ -787,7 +787,7 @@ def run(ctx):
     hint_pool = extra_hints(reg) + [h for n in reg for h in g.hints[n].values()]
 
     # ---- D1: type-directed instances
-    n_inst = ctx.n(1400, 12000)
+    n_inst = ctx.n(1000, 6000)
     insts = []
     for name in g.names:                  # every (instantiable) class at least 4 times
         for _ in range(ctx.n(4, 12)):
@@ -887,7 +887,7 @@ def run(ctx):
     # ---- D2: perturbed JSON stream for the deserialiser
     jg = JGen(ctx, reg, hint_pool)
     dcases, dinfo = [], []
-    for _ in range(ctx.n(1500, 12000)):
+    for _ in range(ctx.n(1200, 6000)):
         top = jg.rng.random() < 0.3
         j = jg.dc(0) if (top or jg.rng.random() < 0.5) else jg.value()
         if top and jg.rng.random() < 0.1:
@@ -1013,7 +1013,7 @@ def run(ctx):
                     if jtext(S.serialize_extraction(null_binary(o), include_binary=True)) != jtext(jf):
                         ctx.finding(f"no-binary-differs:{label}", "include_binary=False changed more than the binary fields",
                                     {"document": str(p)})
-                    if len(text) < 40_000 and len(results_small) < ctx.n(20, 80):
+                    if len(text) < 40_000 and len(results_small) < ctx.n(12, 40):
                         results_small.append((key, o))
 
         mark("documents")
